@@ -173,9 +173,9 @@ def direct_read_gaps(ctx, T, b, ty):
     never touches field `f` of ty, and E occurs at or below the type of `f`."""
     adts = ctx.facts.adts
     dsl = {aid for aid, a in adts.items() if a["crate"] == "ironplc_dsl"}
-    if "c" not in _CONT:
-        _CONT["c"] = T.containment()
-    cont = _CONT["c"]
+    if not hasattr(T, "_cont_cache"):
+        T._cont_cache = T.containment()      # per Traversal (one per tree analysed): never shared between trees
+    cont = T._cont_cache
 
     def closure(t0):
         seen, st = set(), [t0]
@@ -236,9 +236,9 @@ def dsl_types_in(ctx, tystr):
 
 
 def type_closure(T, t0):
-    if "c" not in _CONT:
-        _CONT["c"] = T.containment()
-    cont = _CONT["c"]
+    if not hasattr(T, "_cont_cache"):
+        T._cont_cache = T.containment()      # per Traversal (one per tree analysed): never shared between trees
+    cont = T._cont_cache
     seen, st = set(), [t0]
     while st:
         x = st.pop()
